@@ -44,6 +44,9 @@ def runs(tier):
     cfgs = []
     for i, g in enumerate(big[::step]):
         cfgs.append(mk(g, shuffle=(i % 2 == 0), pool=(i % 3 != 1), kind=("nested", "flat")[i % 5 == 4]))
+    # arguments with 10 and more values (two-digit positions), sequential / shuffled / pooled
+    for i, g in enumerate(([11], [12, 2], [2, 10], [3, 13])):
+        cfgs.append(mk(g, shuffle=(i % 2 == 0), pool=(i % 2 == 1), kind=("nested", "flat")[i == 2]))
     out.append(dict(name="C01_big", configs=cfgs, max_perm=5, check=False,
                     simulate=150 if tier == "quick" else 2500, depth=250))
     if tier == "thorough":
